@@ -14,7 +14,10 @@ Suites
              in a temporary directory, each without and with a merge stage at
              three quiet levels, with the locales given explicitly, not at all
              (taken from one or two configs that enable the same locales) or
-             with repeats, and also through compareProjects directly; exit status, JSON output, and the model fed
+             with repeats, and also through compareProjects directly (TOML
+             configs, programmatic configs whose path entries carry `module`,
+             a legacy l10n.ini application); .po files with (msgid, msgctxt)
+             keys; the TEXT output (details tree and summary rows) is checked; exit status, JSON output, and the model fed
              the recorded event stream
 Oracle (implementation only): the expected summaries are computed from the
 event list by construction; every detail must sit under exactly the path of the
@@ -1002,6 +1005,23 @@ def module_configs(root, proj, base):
     return configs
 
 
+def write_ini_variant(root, proj):
+    """the first config of the project as a legacy l10n.ini application (path
+    entries with a module, reference under <module>/locales/en-US, no filters);
+    the localized files are the ones already written"""
+    cfg = dict(proj["configs"][0], filters=[])
+    top = cfg["top"]
+    loc_dir = os.path.join(root, "ini", "src", top, "locales")
+    shutil.rmtree(os.path.join(root, "ini"), ignore_errors=True)
+    shutil.copytree(os.path.join(root, "en", top), os.path.join(loc_dir, "en-US"))
+    with open(os.path.join(loc_dir, "all-locales"), "w") as f:
+        f.write("".join(l + "\n" for l in proj["locales"]))
+    ini = os.path.join(loc_dir, "l10n.ini")
+    with open(ini, "w") as f:
+        f.write("[general]\ndepth = ../..\nall = %s/locales/all-locales\n\n[compare]\ndirs = %s\n" % (top, top))
+    return ini, dict(proj, configs=[cfg])
+
+
 def cli_direct(tomls, root, proj, quiet, merge, locales, module=False):
     """compareProjects called directly on the parsed (or programmatically built)
     configs -> (ObserverList | failure text, JSON, text output)"""
@@ -1208,9 +1228,33 @@ def cli_compare_merge(chk, proj, quiet, runs):
               {"plain": [o["details"] for o in d0], "merge": [o["details"] for o in d1]})
 
 
+def cli_replay_ini(chk, proj_ini, quiet, mode):
+    from compare_locales import commands
+    real_compare = commands.compareProjects
+    root = tempfile.mkdtemp(prefix="c10_cli_")
+    before = len(chk.failures)
+    try:
+        write_project(root, proj_ini)
+        ini, _ = write_ini_variant(root, proj_ini)
+        rv, data, rec = cli_run(commands, real_compare, [ini], root, proj_ini, quiet, False,
+                                cli_locales(proj_ini, mode))
+        if rec.list is None or isinstance(rv, str):
+            _fail(chk, "cli-run-aborted", {"project": proj_ini, "quiet": quiet}, {"returned": rv})
+        else:
+            cli_oracle(chk, proj_ini, quiet, False, rv, data, rec.list, mode + "/l10n.ini")
+            cli_text_oracle(chk, proj_ini, quiet, mode + "/l10n.ini", rec.text, [ini])
+    finally:
+        commands.compareProjects = real_compare
+        shutil.rmtree(root, ignore_errors=True)
+    return int(len(chk.failures) > before)
+
+
 def cli_replay_project(chk, proj, quiet, mode="plain"):
     """re-run one generated project (plain and merge) against the oracle"""
+    variant = mode.split("/")[1] if "/" in mode else ""
     mode = mode.split("/")[0]
+    if variant == "l10n.ini":
+        return cli_replay_ini(chk, proj, quiet, mode)
     from compare_locales import commands
     real_compare = commands.compareProjects
     root = tempfile.mkdtemp(prefix="c10_cli_")
@@ -1265,6 +1309,19 @@ def run_cli(chk, model):
             chk.hist("cli_entities_with_2+_errors", min(multi, 3))
             quiets = [proj["quiet"]] + rng.sample([q for q in range(5) if q != proj["quiet"]], 2)
             modes = rng.sample(["plain", "none", "repeat"], 3)
+            # the first config as a legacy l10n.ini application, through handle
+            ini, proj_ini = write_ini_variant(root, proj)
+            for mode in ("plain", "none"):
+                rv, data, rec = cli_run(commands, real_compare, [ini], root, proj_ini, quiets[0], False,
+                                        cli_locales(proj_ini, mode))
+                chk.count(("cli-ini", json.dumps(proj_ini, sort_keys=True), quiets[0], mode))
+                chk.hist("cli_direct", "l10n.ini")
+                if rec.list is None or isinstance(rv, str):
+                    _fail(chk, "cli-run-aborted", {"project": proj_ini, "quiet": quiets[0], "merge": False,
+                                                   "locales": mode + "/l10n.ini"}, {"returned": rv})
+                    continue
+                cli_oracle(chk, proj_ini, quiets[0], False, rv, data, rec.list, mode + "/l10n.ini")
+                cli_text_oracle(chk, proj_ini, quiets[0], mode + "/l10n.ini", rec.text, [ini])
             for quiet, mode in zip(quiets, modes):
                 runs = {}
                 locales = cli_locales(proj, mode)
